@@ -71,6 +71,8 @@ pub fn diff(a: &Snapshot, b: &Snapshot) -> Vec<Change> {
 
 pub struct Scratch {
     pub base: PathBuf,
+    /// the directory belongs to somebody else (a parent process): not removed on drop
+    pub keep: bool,
 }
 
 impl Scratch {
@@ -82,7 +84,21 @@ impl Scratch {
         let base = dir.join(format!("s3s-verif-{}-{}-{tag}-{n}", std::process::id(), std::time::SystemTime::now().duration_since(std::time::UNIX_EPOCH).map_or(0, |d| d.as_nanos())));
         std::fs::create_dir_all(&base).expect("scratch dir");
         let base = base.canonicalize().expect("canonical scratch dir");
-        Self { base }
+        Self { base, keep: false }
+    }
+    /// the scratch directory of another process (emptied, kept on drop)
+    pub fn at(base: &Path) -> Self {
+        if let Ok(rd) = std::fs::read_dir(base) {
+            for e in rd.flatten() {
+                let p = e.path();
+                if p.is_dir() {
+                    let _ = std::fs::remove_dir_all(&p);
+                } else if p.file_name().is_some_and(|n| n != "strace.log" && n != "cases.json") {
+                    let _ = std::fs::remove_file(&p);
+                }
+            }
+        }
+        Self { base: base.to_path_buf(), keep: true }
     }
     pub fn root(&self) -> PathBuf {
         self.base.join("root")
@@ -91,6 +107,9 @@ impl Scratch {
 
 impl Drop for Scratch {
     fn drop(&mut self) {
+        if self.keep {
+            return;
+        }
         let _ = std::fs::remove_dir_all(&self.base);
     }
 }
